@@ -66,6 +66,7 @@ func (s *State) clone() *State {
 }
 
 type Obligation struct {
+	Known bool // listed in known_findings.txt for the property being checked
 	SkipTags map[string]bool // tagged assumptions this obligation leaves out (clause `uses [...]`)
 	Name     string
 	Kind     string // ensures requires inv.entry inv.preserve safe.* frame lemma cover decreases
